@@ -42,7 +42,7 @@ func (t AnyTable) UnmarshalYAML(data []byte) (any, error) {
 
 func (t AnyTable) Insert(txn WriteTxn, obj any) (old any, hadOld bool, err error) {
 	var iobj object
-	iobj, hadOld, _, err = txn.unwrap().insert(t.Meta, Revision(0), obj)
+	iobj, hadOld, _, err = txn.unwrap().insert(t.Meta, noGuard, obj)
 	if hadOld {
 		old = iobj.data
 	}
@@ -51,7 +51,7 @@ func (t AnyTable) Insert(txn WriteTxn, obj any) (old any, hadOld bool, err error
 
 func (t AnyTable) Delete(txn WriteTxn, obj any) (old any, hadOld bool, err error) {
 	var iobj object
-	iobj, hadOld, err = txn.unwrap().delete(t.Meta, Revision(0), obj)
+	iobj, hadOld, err = txn.unwrap().delete(t.Meta, noGuard, obj)
 	if hadOld {
 		old = iobj.data
 	}
